@@ -246,7 +246,9 @@ func startupString(rnd *rand.Rand) string {
 
 func runStartupCase(id string, rnd *rand.Rand) J {
 	var m *message.Startup
-	switch rnd.Intn(4) {
+	switch rnd.Intn(5) {
+	case 4:
+		m = &message.Startup{} // nil options map: the setters must allocate it
 	case 0:
 		m = message.NewStartup()
 	case 1:
